@@ -59,6 +59,15 @@ Section Aut.
   (** The word belongs to the language of state [q]. *)
   Definition taccepts (q : Q) (w : string) : bool := accepts_from [CTok EmptyString q] w.
 
+  (** Declaratively: the token-level language of a state is the set of concatenations of token
+      texts along accepting paths; a wildcard stands for any non-empty text. *)
+  Inductive tacc : Q -> string -> Prop :=
+  | tacc_nil q : final q = true -> tacc q EmptyString
+  | tacc_lit q t q' w :
+      In (TLit t, q') (next q) -> t <> EmptyString -> tacc q' w -> tacc q (append t w)
+  | tacc_wild q q' u w :
+      In (TWild, q') (next q) -> u <> EmptyString -> tacc q' w -> tacc q (append u w).
+
   Variable eqQ : Q -> Q -> bool.
 
   Definition cfg_eqb (c d : cfg) : bool :=
